@@ -137,7 +137,7 @@ func runBehaviour(p eng.Profile, b behaviour, extraRestarts int, res *engOutput)
 		opName, _ := st.Op["op"].(string)
 		// frame condition of every action of Kektor.tla except the re-encoding ones (VCompress, a restart): the stored
 		// vector of an id the call does not name is UNCHANGED -- checked on the exact values VGet returns, not on tokens
-		if opName != "VCompress" && opName != "Reopen" && opName != "VDeleteCut" && opName != "SnapshotCut" && !rawReported {
+		if opName != "VCompress" && opName != "Reopen" && opName != "VDeleteCut" && opName != "VDeleteSnapCut" && opName != "SnapshotCut" && !rawReported {
 			named := map[string]bool{}
 			for _, v := range st.Op {
 				if sv, ok := v.(string); ok {
@@ -189,7 +189,7 @@ func runBehaviour(p eng.Profile, b behaviour, extraRestarts int, res *engOutput)
 			}
 		}
 		switch opName {
-		case "VDelete", "VDeleteCut":
+		case "VDelete", "VDeleteCut", "VDeleteSnapCut":
 			if got == "ok" {
 				if id, _ := st.Op["id"].(string); id != "" {
 					dead[id] = 1
